@@ -66,6 +66,8 @@ pub mod k {
     pub const SPURIOUS: i128 = 39; // per mille: poll a task that was not woken
     pub const CLOSE_AT_US: i128 = 40; // > 0: END_MODE action at that time even if jobs are running
     pub const IOERR_AFTER: i128 = 41; // >= 0: the client's socket fails every send after that many
+    pub const IMPLICIT_FINISH: i128 = 42; // 1: writers of uni streams drop the SendStream instead of calling finish()
+    pub const STOP_BY_DROP: i128 = 43; // 1: at STOP_AT the reader drops the RecvStream instead of calling stop()
     pub const MAX_TIME: i128 = 52;
 }
 
@@ -86,6 +88,7 @@ pub const O_WAIT_IDLE: i128 = 13;
 pub const O_READ_TO_END: i128 = 14;
 pub const O_WRITE_ALL: i128 = 15;
 pub const O_HS_CONFIRMED: i128 = 16;
+pub const O_STOPPED_DETACHED: i128 = 17;
 pub const O_SLEEP: i128 = 90;
 pub const O_INTERNAL: i128 = 91;
 
@@ -580,6 +583,7 @@ struct World {
     p: P,
     conn: [Slot<Connection>; 2],
     jobs: Counter,
+    echoes: Counter,
     saddr: SocketAddr,
 }
 
@@ -704,6 +708,9 @@ async fn read_job(cx: &Ctx, recv: &mut RecvStream, sid: i128, salt: u64, stop_at
     }
     let mut buf = vec![0u8; max];
     loop {
+        if stop_at >= 0 && off as i128 >= stop_at && p.get(k::STOP_BY_DROP, 0) == 1 {
+            return off as i128; // the caller drops the handle: implicit stop(0)
+        }
         if stop_at >= 0 && off as i128 >= stop_at {
             let r = recv.stop(VarInt::from_u32(7));
             cx.sh.log(vec![35, cx.sh.t(), cx.tid(), sid, r.is_ok() as i128]);
@@ -760,6 +767,27 @@ async fn client_uni(cx: Ctx, i: usize) {
             let reset_at = if i == 0 { p.get(k::RESET_AT, -1) } else { -1 };
             let ok = write_job(&cx, &mut send, sid, total, 1, reset_at).await;
             let sw = p.get(k::STOPPED_WAIT, 1);
+            if ok && p.get(k::IMPLICIT_FINISH, 0) == 1 {
+                // the stopped() future is 'static: take it, then drop the handle WITHOUT finish()
+                let mut st = Box::pin(send.stopped());
+                cx.h_new(1, -1); // the future holds a ConnectionRef
+                cx.sh.log(vec![36, cx.sh.t(), cx.tid(), sid, 1, total as i128]);
+                cx.h_drop(2, sid);
+                drop(send);
+                let r = op!(cx, O_STOPPED_DETACHED, sid, false, &mut st);
+                match r {
+                    Ok(None) => cx.res(0, 0, 0, true),
+                    Ok(Some(c)) => cx.res(1, c.into_inner() as i128, 0, true),
+                    Err(quinn::StoppedError::ConnectionLost(e)) => cx.res(10 + conn_err(&e), 0, 0, true),
+                    Err(quinn::StoppedError::ZeroRttRejected) => cx.res(23, 0, 0, true),
+                }
+                cx.h_drop(1, -1);
+                drop(st);
+                cx.w.jobs.done();
+                cx.h_drop(1, -1);
+                drop(conn);
+                return;
+            }
             if ok {
                 let r = send.finish();
                 cx.sh.log(vec![36, cx.sh.t(), cx.tid(), sid, r.is_ok() as i128, total as i128]);
@@ -851,6 +879,11 @@ async fn dgram_sender(cx: Ctx) {
             }
         }
     }
+    if p.get(k::LOSS, 0) == 0 && p.get(k::DGRAM_SEND_BUF, 0) == 0 && p.get(k::DELAY_MAX, 0) <= p.get(k::DELAY_MIN, 5000) {
+        // loss-free FIFO link (no spurious loss detection either): every datagram comes back; wait for the echoes (or the close)
+        cx.w.echoes.n.set(cx.w.echoes.n.get() + n as i64);
+        cx.w.echoes.wait(&cx, None).await;
+    }
     cx.w.jobs.done();
     cx.h_drop(1, -1);
     drop(conn);
@@ -867,6 +900,9 @@ async fn dgram_reader(cx: Ctx, side: usize, echo: bool) {
                 let id = if b.len() >= 8 { u64::from_be_bytes(b[..8].try_into().unwrap()) } else { u64::MAX };
                 let ok = b.iter().enumerate().skip(8).all(|(j, x)| *x == pattern(1 << 40, id.wrapping_mul(65536) + j as u64, 3));
                 cx.res(0, id as i128, b.len() as i128, ok);
+                if !echo {
+                    cx.w.echoes.done();
+                }
                 if echo {
                     let r = conn.send_datagram(b);
                     cx.sh.log(vec![38, cx.sh.t(), cx.tid(), id as i128, r.is_ok() as i128]);
@@ -874,6 +910,10 @@ async fn dgram_reader(cx: Ctx, side: usize, echo: bool) {
             }
             Err(e) => {
                 cx.res(10 + conn_err(&e), -1, 0, true);
+                if !echo {
+                    cx.w.echoes.n.set(i64::MIN / 2);
+                    cx.w.echoes.done();
+                }
                 break;
             }
         }
@@ -1357,6 +1397,7 @@ fn run(sh: Arc<Sh>, p: P, saddr: SocketAddr) {
     let w = Rc::new(World {
         conn: [Slot::new(), Slot::new()],
         jobs: Counter { n: Cell::new(n_jobs as i64), wakers: RefCell::new(Vec::new()) },
+        echoes: Counter { n: Cell::new(0), wakers: RefCell::new(Vec::new()) },
         saddr,
         p,
     });
